@@ -1,5 +1,45 @@
 """deliberate breakages of the real source that the C02 contracts must catch (see vf/selftest.py)"""
 MODULES = ['contracts.c02_maps']
+
+
+def run_mutant(tmp, relpath, suffix, old, new):
+    """as vf.selftest.run_e1_mutant, but the obligations of the case `repeats-allowed` (which fail on the UNCHANGED
+    tree for _unlink_inds: known finding C02-a) do not count as `caught`"""
+    import os
+    from vf import pyvc
+    src = open(os.path.join("/repo", relpath)).read()
+    if src.count(old) < 1:
+        return "stale", "old text not found in the current source"
+    dst = os.path.join(tmp, relpath)
+    os.makedirs(os.path.dirname(dst), exist_ok=True)
+    open(dst, "w").write(src.replace(old, new, 1))
+    # callee contracts live in the other carrier file: give the scratch tree an UNCHANGED copy of it
+    for other in ("quimb/tensor/tensor_core.py", "quimb/utils.py"):
+        if other != relpath:
+            od = os.path.join(tmp, other)
+            os.makedirs(os.path.dirname(od), exist_ok=True)
+            open(od, "w").write(open(os.path.join("/repo", other)).read())
+    pyvc.REPO = tmp
+    pyvc._SRC_CACHE.clear()
+    try:
+        cons = [v for k, v in pyvc.REGISTRY.items() if k.endswith(suffix)]
+        if not cons:
+            return "stale", f"no contract registered for {suffix}"
+        rep = pyvc.verify(cons[0])
+    finally:
+        pyvc.REPO = "/repo"
+        pyvc._SRC_CACHE.clear()
+        os.remove(dst)
+    failed = [o for o in rep.failed if o.case != "repeats-allowed"]
+    if failed:
+        return "failed", ", ".join(sorted({o.label.split("#")[0] for o in failed})[:3])
+    if rep.status != "ok":
+        return rep.status, rep.detail[:120]
+    if [o for o in rep.unknown if o.case != "repeats-allowed"]:
+        return "unknown", f"{len(rep.unknown)} undecided"
+    return "discharged", ""
+
+
 _T = 'quimb/tensor/tensor_core.py'
 _U = 'quimb/utils.py'
 MUTANTS = [
@@ -58,4 +98,86 @@ MUTANTS = [
     (_T, '.pop_tensor', '        t = self.tensor_map.pop(tid)\n', '        t = self.tensor_map.pop(tid)\n        self.tensor_map[tid] = t\n', 'expect-fail'),
     (_T, '.pop_tensor', '        self._unlink_tags(t.tags, tid)\n        self._unlink_inds(t.inds, tid)', '        self._unlink_tags(t.tags, tid + 1)\n        self._unlink_inds(t.inds, tid)', 'expect-fail'),
     (_T, '.pop_tensor', '        self._unlink_tags(t.tags, tid)\n        self._unlink_inds(t.inds, tid)', '        self._link_tags(t.tags, tid)\n        self._unlink_inds(t.inds, tid)', 'expect-fail'),
+    # ---- oset
+    (_U, 'oset.add', '        self._d[k] = None\n\n    def discard', '        pass\n\n    def discard', 'expect-fail'),
+    (_U, 'oset.discard', '        self._d.pop(k, None)', '        self._d[k] = None', 'expect-fail'),
+    (_U, 'oset.discard', '        self._d.pop(k, None)', '        pass', 'expect-fail'),
+    (_U, 'oset.remove', '        del self._d[k]\n\n    def clear', '        self._d.pop(k, None)\n\n    def clear', 'expect-fail'),
+    (_U, 'oset.remove', '        del self._d[k]\n\n    def clear', '        pass\n\n    def clear', 'expect-fail'),
+    (_U, 'oset.clear', '        self._d.clear()', '        pass', 'expect-fail'),
+    (_U, 'oset.update', '                self._d.update(o._d)', '                pass', 'expect-fail'),
+    (_U, 'oset.update', '                for k in o:\n                    self._d[k] = None', '                for k in o:\n                    self._d.pop(k, None)', 'expect-fail'),
+    (_U, 'oset.update', '                self._d.update(o._d)', '                o._d.update(self._d)', 'expect-fail'),
+    (_U, 'oset.update', '        for o in others:\n            try:', '        for o in others[1:]:\n            try:', 'expect-fail'),
+    (_U, 'oset.union', '        u = self.copy()\n        u.update(*others)', '        u = self\n        u.update(*others)', 'expect-fail'),
+    (_U, 'oset.union', '        u.update(*others)\n        return u', '        return u', 'expect-fail'),
+    (_U, 'oset.union', '        u.update(*others)\n        return u', '        u.intersection_update(*others)\n        return u', 'expect-fail'),
+    (_U, 'oset.union', '        u.update(*others)\n        return u', '        u.update(*others)\n        return self', 'expect-fail'),
+    (_U, 'oset.intersection_update', '        self._d = {k: None for k in self._d if k in si}\n\n    def intersection(', '        self._d = {k: None for k in self._d if k not in si}\n\n    def intersection(', 'expect-fail'),
+    (_U, 'oset.intersection_update', '            si = set.intersection(*(set(o._d) for o in others))\n        else:\n            si = others[0]._d\n        self._d', '            si = set.union(*(set(o._d) for o in others))\n        else:\n            si = others[0]._d\n        self._d', 'expect-fail'),
+    (_U, 'oset.intersection_update', '        if len(others) > 1:\n            si = set.intersection', '        if len(others) > 2:\n            si = set.intersection', 'expect-fail'),
+    (_U, 'oset.intersection_update', '        self._d = {k: None for k in self._d if k in si}\n\n    def intersection(', '        {k: None for k in self._d if k in si}\n\n    def intersection(', 'expect-fail'),
+    (_U, 'oset.intersection', '            return self.copy()\n        elif n_others == 1:', '            return self\n        elif n_others == 1:', 'expect-fail'),
+    (_U, 'oset.intersection', '        return oset._from_dict({k: None for k in self._d if k in si})', '        return oset._from_dict({k: None for k in self._d if k not in si})', 'expect-fail'),
+    (_U, 'oset.intersection', '        else:\n            si = set.intersection(*(set(o._d) for o in others))\n        return oset._from_dict', '        else:\n            si = set.union(*(set(o._d) for o in others))\n        return oset._from_dict', 'expect-fail'),
+    (_U, 'oset.intersection', '        return oset._from_dict({k: None for k in self._d if k in si})', '        return oset._from_dict({k: None for k in si if k in si})', 'expect-fail'),
+    (_U, 'oset.difference_update', '        self._d = {k: None for k in self._d if k not in su}\n\n    def difference(', '        self._d = {k: None for k in self._d if k in su}\n\n    def difference(', 'expect-fail'),
+    (_U, 'oset.difference_update', '            su = set.union(*(set(o._d) for o in others))\n        else:\n            su = others[0]._d\n        self._d', '            su = set.intersection(*(set(o._d) for o in others))\n        else:\n            su = others[0]._d\n        self._d', 'expect-fail'),
+    (_U, 'oset.difference_update', '        self._d = {k: None for k in self._d if k not in su}\n\n    def difference(', '        self._d = {k: None for k in su if k not in self._d}\n\n    def difference(', 'expect-fail'),
+    (_U, 'oset.difference_update', '            su = others[0]._d\n        self._d = {k: None for k in self._d if k not in su}', '            su = self._d\n        self._d = {k: None for k in self._d if k not in su}', 'expect-fail'),
+    (_U, 'oset.difference', '        return oset._from_dict({k: None for k in self._d if k not in su})', '        return oset._from_dict({k: None for k in self._d if k in su})', 'expect-fail'),
+    (_U, 'oset.difference', '        return oset._from_dict({k: None for k in self._d if k not in su})', '        self._d = {k: None for k in self._d if k not in su}\n        return self', 'expect-fail'),
+    (_U, 'oset.difference', '        return oset._from_dict({k: None for k in self._d if k not in su})', '        return oset._from_dict({k: None for k in su if k not in self._d})', 'expect-fail'),
+    (_U, 'oset.difference', '            su = set.union(*(set(o._d) for o in others))\n        else:\n            su = others[0]._d\n        return', '            su = set.intersection(*(set(o._d) for o in others))\n        else:\n            su = others[0]._d\n        return', 'expect-fail'),
+    (_U, 'oset.copy', '        return oset.from_dict(self._d)', '        return oset._from_dict(self._d)', 'expect-fail'),
+    (_U, 'oset.copy', '        return oset.from_dict(self._d)', '        return self', 'expect-fail'),
+    (_U, 'oset.from_dict', '        return oset._from_dict(d.copy())', '        return oset._from_dict(d)', 'expect-fail'),
+    (_U, 'oset._from_dict', '        obj._d = d\n', '        obj._d = d.copy()\n', 'expect-fail'),
+    (_U, 'oset.__eq__', '            return self._d == other._d', '            return True', 'expect-fail'),
+    (_U, 'oset.__eq__', '            return self._d == other._d\n        return False', '            return self._d == other._d\n        return True', 'expect-fail'),
+    (_U, 'oset.__eq__', '            return self._d == other._d', '            return self._d == self._d', 'expect-fail'),
+    (_U, 'oset.__or__', '        return self.union(other)', '        return self.intersection(other)', 'expect-fail'),
+    (_U, 'oset.__or__', '        return self.union(other)', '        return other.union(other)', 'expect-fail'),
+    (_U, 'oset.__ior__', '        self.update(other)\n        return self', '        self.update(other)\n        return other', 'expect-fail'),
+    (_U, 'oset.__ior__', '        self.update(other)\n        return self', '        return self.union(other)', 'expect-fail'),
+    (_U, 'oset.__and__', '        return self.intersection(other)', '        return self.union(other)', 'expect-fail'),
+    (_U, 'oset.__and__', '        return self.intersection(other)', '        self.intersection_update(other)\n        return self', 'expect-fail'),
+    (_U, 'oset.__iand__', '        self.intersection_update(other)\n        return self', '        self.difference_update(other)\n        return self', 'expect-fail'),
+    (_U, 'oset.__iand__', '        self.intersection_update(other)\n        return self', '        return self.intersection(other)', 'expect-fail'),
+    (_U, 'oset.__sub__', '        return self.difference(other)', '        return other.difference(self)', 'expect-fail'),
+    (_U, 'oset.__sub__', '        return self.difference(other)', '        return self.intersection(other)', 'expect-fail'),
+    (_U, 'oset.__isub__', '        self.difference_update(other)\n        return self', '        self.intersection_update(other)\n        return self', 'expect-fail'),
+    (_U, 'oset.__isub__', '        self.difference_update(other)\n        return self', '        other.difference_update(self)\n        return self', 'expect-fail'),
+    (_U, 'oset.__len__', '        return self._d.__len__()', '        return self._d.__len__() + 1', 'expect-fail'),
+    (_U, 'oset.__contains__', '        return self._d.__contains__(x)', '        return not self._d.__contains__(x)', 'expect-fail'),
+    # ---- _modify_tensor_tags / _modify_tensor_inds
+    (_T, '._modify_tensor_tags', '        self._unlink_tags(old - new, tid)\n        self._link_tags(new - old, tid)', '        self._unlink_tags(new - old, tid)\n        self._link_tags(old - new, tid)', 'expect-fail'),
+    (_T, '._modify_tensor_tags', '        self._unlink_tags(old - new, tid)\n', '', 'expect-fail'),
+    (_T, '._modify_tensor_tags', '        self._link_tags(new - old, tid)\n', '', 'expect-fail'),
+    (_T, '._modify_tensor_tags', '        self._unlink_tags(old - new, tid)\n', '        self._unlink_tags(old, tid)\n', 'expect-fail'),
+    (_T, '._modify_tensor_tags', '        self._link_tags(new - old, tid)\n', '        self._link_tags(new | old, tid)\n', 'expect-fail'),
+    (_T, '._modify_tensor_tags', '        self._link_tags(new - old, tid)\n', '        self._link_tags(new - old, tid + 1)\n', 'expect-fail'),
+    (_T, '._modify_tensor_tags', '        self._link_tags(new - old, tid)\n', '        self._link_tags(new, tid)\n', 'benign'),
+    (_T, '._modify_tensor_inds', '        self._unlink_inds(old - new, tid)\n        self._link_inds(new - old, tid)', '        self._unlink_inds(new - old, tid)\n        self._link_inds(old - new, tid)', 'expect-fail'),
+    (_T, '._modify_tensor_inds', '        self._unlink_inds(old - new, tid)\n', '', 'expect-fail'),
+    (_T, '._modify_tensor_inds', '        self._link_inds(new - old, tid)\n', '', 'expect-fail'),
+    (_T, '._modify_tensor_inds', '        self._link_inds(new - old, tid)\n', '        self._link_inds(new, tid)\n', 'expect-fail'),
+    (_T, '._modify_tensor_inds', '        self._unlink_inds(old - new, tid)\n', '        self._unlink_inds(old, tid)\n', 'expect-fail'),
+    (_T, '._modify_tensor_inds', '        self._link_inds(new - old, tid)\n', '        self._link_tags(new - old, tid)\n', 'expect-fail'),
+    # ---- _get_tids_from, oset_union, oset_intersection
+    (_T, '._get_tids_from', '            "all": oset_intersection,\n            "any": oset_union,', '            "all": oset_union,\n            "any": oset_intersection,', 'expect-fail'),
+    (_T, '._get_tids_from', '        if inverse:\n            return oset(self.tensor_map) - tids', '        if not inverse:\n            return oset(self.tensor_map) - tids', 'expect-fail'),
+    (_T, '._get_tids_from', '            return oset(self.tensor_map) - tids', '            return tids - oset(self.tensor_map)', 'expect-fail'),
+    (_T, '._get_tids_from', '        if not tid_sets:\n            tids = oset()', '        if tid_sets:\n            tids = oset()', 'expect-fail'),
+    (_T, '._get_tids_from', '        if not tid_sets:\n            tids = oset()', '        if not tid_sets:\n            tids = oset(self.tensor_map)', 'expect-fail'),
+    (_T, '._get_tids_from', '        inverse = which[0] == "!"', '        inverse = which[0] != "!"', 'expect-fail'),
+    (_T, '._get_tids_from', '            return oset(self.tensor_map) - tids', '            return oset(self.tensor_map) & tids', 'expect-fail'),
+    (_T, '::oset_union', '    return oset(concat(xs))', '    return oset(concat(xs[1:]))', 'expect-fail'),
+    (_T, '::oset_union', '    return oset(concat(xs))', '    return oset_intersection(xs)', 'expect-fail'),
+    (_T, '::oset_union', '    return oset(concat(xs))', '    return xs[0]', 'expect-fail'),
+    (_T, '::oset_union', '    return oset(concat(xs))', '    return oset(concat(xs[:2]))', 'expect-fail'),
+    (_T, '::oset_intersection', '    return x0.intersection(*xs)', '    return x0.union(*xs)', 'expect-fail'),
+    (_T, '::oset_intersection', '    return x0.intersection(*xs)', '    return x0.intersection(*xs[1:])', 'expect-fail'),
+    (_T, '::oset_intersection', '    return x0.intersection(*xs)', '    return x0', 'expect-fail'),
+    (_T, '::oset_intersection', '    return x0.intersection(*xs)', '    x0.intersection_update(*xs)\n    return x0', 'expect-fail'),
 ]
